@@ -322,7 +322,11 @@ func (w *World) expectedNodesFresh(cs ConfSet, ranges [][]string) []string {
 	}
 	var nodes []string
 	for _, n := range w.topo.Nodes {
-		if n.Subnet != "" && set[n.Subnet] {
+		var subs []string
+		for k := range set {
+			subs = append(subs, k)
+		}
+		if w.topo.NodeIn(n.Name, subs) {
 			nodes = append(nodes, n.Name)
 		}
 	}
@@ -336,9 +340,13 @@ func (w *World) evalC06(pr *probeState) {
 	}
 	mem := w.memdump[pr.tag]
 	cs := w.confInForce(mem)
+	// When the tables match one published configuration the clauses are judged against it. When they match none (a
+	// reload in flight when the run was cut, or tables that mis-attribute an IP), a clause fails only if it fails
+	// under every published configuration: no configuration that may be in force justifies what was observed.
+	css := []ConfSet{cs}
 	if cs == nil {
 		w.S.Stat("c06.conf-in-force-unknown")
-		return
+		css = w.confVers
 	}
 	p := pr.pod
 	fr := pr.fr
@@ -349,20 +357,29 @@ func (w *World) evalC06(pr *probeState) {
 	got := append([]string(nil), fr.Nodes...)
 	sort.Strings(got)
 	// a pod that already holds an IP is only offered nodes from which that IP is routable
-	for _, ip := range pr.before {
-		pool := cs[ip]
-		if pool == nil {
-			continue
-		}
-		for _, n := range got {
-			if !hasStr(pool.NodeSubnets, w.topo.SubnetOfNode(n)) {
-				w.fail("C06.offered-unroutable-node", "offered-unroutable-node",
-					"pod %s holds IP %s (node subnets %v) but filter offered node %s (%s)", p.key(), ip, pool.NodeSubnets, n, w.topo.SubnetOfNode(n))
-				return
+	var msg string
+	for _, c := range css {
+		msg = ""
+		for _, ip := range pr.before {
+			pool := c[ip]
+			if pool == nil {
+				continue
+			}
+			for _, n := range got {
+				if !w.topo.NodeIn(n, pool.NodeSubnets) {
+					msg = fmt.Sprintf("pod %s holds IP %s (node subnets %v) but filter offered node %s (%s)", p.key(), ip, pool.NodeSubnets, n, w.topo.SubnetOfNode(n))
+				}
 			}
 		}
+		if msg == "" {
+			break
+		}
 	}
-	if len(pr.before) == 0 && p.App.effPolicy() == "" && pr.haveWant {
+	if msg != "" {
+		w.fail("C06.offered-unroutable-node", "offered-unroutable-node", "%s", msg)
+		return
+	}
+	if cs != nil && len(pr.before) == 0 && p.App.effPolicy() == "" && pr.haveWant {
 		want := pr.want // computed at the instant filter returned (before the bind allocated anything)
 		if strings.Join(want, ",") != strings.Join(got, ",") {
 			w.fail("C06.filter-node-set", "filter-node-set",
@@ -390,23 +407,33 @@ func (w *World) evalC06(pr *probeState) {
 		w.fail("C06.bound-without-ip", "bound-without-ip", "bind of %s to %s succeeded but the pod carries no IP", p.key(), pr.br.Node)
 		return
 	}
-	for _, ii := range cur.IPInfos {
-		parts := strings.SplitN(ii.IP, "/", 2)
-		pool := cs[parts[0]]
-		if pool == nil {
-			w.fail("C06.bound-unconfigured-ip", "bound-unconfigured-ip", "pod %s bound with %s which is in no configured pool", p.key(), ii.IP)
-			return
+	var clause string
+	for _, c := range css {
+		clause, msg = "", ""
+		for _, ii := range cur.IPInfos {
+			parts := strings.SplitN(ii.IP, "/", 2)
+			pool := c[parts[0]]
+			if pool == nil {
+				clause, msg = "bound-unconfigured-ip", fmt.Sprintf("pod %s bound with %s which is in no configured pool", p.key(), ii.IP)
+				break
+			}
+			if !w.topo.NodeIn(pr.br.Node, pool.NodeSubnets) {
+				clause, msg = "bound-unroutable-ip", fmt.Sprintf("pod %s bound to %s (%s) with IP %s of a pool routable from %v", p.key(), pr.br.Node, nodeSub, ii.IP, pool.NodeSubnets)
+				break
+			}
+			wantMask := pool.Subnet[strings.Index(pool.Subnet, "/")+1:]
+			if len(parts) != 2 || parts[1] != wantMask || ii.Gateway != pool.Gateway || ii.Vlan != pool.Vlan {
+				clause, msg = "ipinfo-differs-from-pool", fmt.Sprintf("pod %s bound with %+v, its pool is subnet %s gateway %s vlan %d", p.key(), ii, pool.Subnet, pool.Gateway, pool.Vlan)
+				break
+			}
 		}
-		if !hasStr(pool.NodeSubnets, nodeSub) {
-			w.fail("C06.bound-unroutable-ip", "bound-unroutable-ip", "pod %s bound to %s (%s) with IP %s of a pool routable from %v", p.key(), pr.br.Node, nodeSub, ii.IP, pool.NodeSubnets)
-			return
+		if clause == "" {
+			break
 		}
-		wantMask := pool.Subnet[strings.Index(pool.Subnet, "/")+1:]
-		if len(parts) != 2 || parts[1] != wantMask || ii.Gateway != pool.Gateway || ii.Vlan != pool.Vlan {
-			w.fail("C06.ipinfo-differs-from-pool", "ipinfo-differs-from-pool",
-				"pod %s bound with %+v, its pool is subnet %s gateway %s vlan %d", p.key(), ii, pool.Subnet, pool.Gateway, pool.Vlan)
-			return
-		}
+	}
+	if clause != "" {
+		w.fail("C06."+clause, clause, "%s", msg)
+		return
 	}
 	w.S.Stat("c06.bind-checked")
 }
